@@ -90,7 +90,7 @@ def run(tier):
     stat = {'states_evaluated': 0, 'ops_evaluated': 0, 'ops_with_a_failing_state': 0, 'returns_with_all_blocks_fresh': 0,
             'returns_gap_bound_max': 0.0, 'returns_min_multiplier_min': None, 'returns_min_multiplier_below_minus_1e-4': 0}
     for label, impl, insts, enum in sets:
-        real, drv, errs, dts = L.run_batch(insts, impl, tag='c02' + label, enum=enum)
+        real, drv, errs, dts = L.run_batch(insts, impl, tag='c02' + label, enum=enum, kkt=True)
         errors += [str(e) for e in errs]
         times[label] = [round(x, 2) for x in dts]
         for t, c in L.histogram(insts).items():
